@@ -21,11 +21,15 @@ RULE = ("cases = term (initial condition ODE/PDE, normalisation stationary/non-s
 ASSUMPTIONS = [
     "normalisation: w * (V * mean_j u(x_j) - 1)^2, averaged over the batch times when u depends on time (scalar u)",
     "per-component weights only where the reduction is component-wise (PDE initial condition, observations)",
+    "separable networks: initial-condition and normalisation terms against the closed form of an analytic separable field "
+    "(observations on separable networks are refused by jinns: not covered)",
     "observed parameters reach the network through transforms that reduce them with jnp.sum (identity for a row)",
 ]
 TIMEOUT = {"quick": 1500, "thorough": 5400}
-MIN_COUNTERS = {"quick": {"terms_compared": 150, "obs_with_observed_params": 15, "norm_cases": 30, "ic_cases": 30},
-                "thorough": {"terms_compared": 1800, "obs_with_observed_params": 200, "norm_cases": 400, "ic_cases": 400}}
+MIN_COUNTERS = {"quick": {"terms_compared": 150, "obs_with_observed_params": 15, "norm_cases": 30, "ic_cases": 30,
+                          "spinn_separable_terms_vs_closed_form": 20},
+                "thorough": {"terms_compared": 1800, "obs_with_observed_params": 200, "norm_cases": 400, "ic_cases": 400,
+                             "spinn_separable_terms_vs_closed_form": 280}}
 
 KINDS = ["ic_ode", "ic_pde", "norm_statio", "norm_nonstatio", "obs_ode", "obs_statio", "obs_nonstatio"]
 
@@ -59,6 +63,12 @@ def gen_cases(tier, seed):
                      pbatch=bool(rng.integers(2)), wvec=bool(rng.integers(2)))
             c["B"] = min(c["B"], c["n"])
         cases.append(c)
+    # separable networks: initial-condition and normalisation terms on a SPINN (tensor grid of the batch / of the
+    # normalisation samples) against the closed form of an analytic separable field (term builder shared with C11)
+    for k in range(24 if q else 300):
+        cases.append(dict(kind="spinn_term", term=["norm_statio", "norm_nonstatio", "ic"][k % 3], d=1 + (k // 3) % 2,
+                          r=int(rng.integers(1, 4)), m=int(rng.integers(1, 3)), B=int(rng.integers(2, 4)),
+                          judge="closed", seed=seed * 1000 + k, cost=3.0, x64=True))
     return cases
 
 
@@ -68,6 +78,25 @@ def run_case(case, rec):
     import jinns
     from jinns.parameters import Params
 
+    if case["kind"] == "spinn_term":
+        from . import c11
+        from ..core import Rec
+
+        sub = Rec(case)
+        try:
+            c11.run_case(dict(case, kind="term"), sub)
+        finally:
+            for k_, v_ in sub.counters.items():
+                if k_ != "violations_raw":
+                    rec.count("spinn_" + k_, v_)
+            for key in sub.keys:
+                rec.nontrivial(key)
+            rec.sample = rec.sample or sub.sample
+            for u_ in sub.unsupported:
+                rec.unsupp(u_)
+            for v_ in sub.violations:
+                rec.violation("spinn/" + v_["sig"], v_["what"], **(v_["witness"] or {}))
+        return
     kind, d, n_out = case["kind"], case["d"], case["n_out"]
     rng = np.random.default_rng([case["seed"], 9])
     if case["seed"] % 6 == 0:
